@@ -7,14 +7,20 @@ From M Require RtText.
 From M Require RtBlock.
 From M Require Tie.
 From M Require ArrayRoundTrip.
+From M Require RtFloat.
 From M Require DecSpec.
 From M Require FmtModel.
+From M Require GFmt.
+From M Require GFmtSpec.
+From M Require ILog.
 From M Require IntFmtProofs.
 From M Require LexBounds.
 From M Require LexModel.
 From M Require ListWs.
 From M Require MoreSpecs.
+From M Require NumDecode.
 From M Require NumList.
+From M Require NumSyntax.
 From M Require ParamList.
 From M Require ParserModel.
 From M Require RtBlock.
@@ -107,4 +113,56 @@ Theorem C07_rt_uint_array :
 Proof. exact (@ArrayRoundTrip.rt_uint_array). Qed.
 End T_rt_uint_array.
 Definition C07_rt_uint_array := @T_rt_uint_array.C07_rt_uint_array.
+
+Module T_fmt_g_reads_back. Import RtFloat. Local Open Scope bool_scope. Local Open Scope Z_scope.
+Import GFmt NumDecode NumSyntax GFmtSpec ILog. Local Open Scope Z_scope.
+Theorem C07_fmt_g_reads_back :
+  forall P neg n d rest,
+  1 <= P <= 17 -> 0 < n ->
+  (let '(D, X) := sig_digits P n d in 10 ^ (P - 1) <= D < 10 ^ P /\ -370 <= X <= 370) -> delim rest ->
+  let '(D, X) := sig_digits P n d in
+  exists N' D', strtod_exact (bzl (fmt_g P neg n d) ++ rest) = Some (neg, N', D') /\ 0 < D' /\
+                N' * valden (X - P + 1) = valnum D (X - P + 1) * D'.
+Proof. exact (@RtFloat.fmt_g_reads_back). Qed.
+End T_fmt_g_reads_back.
+Definition C07_fmt_g_reads_back := @T_fmt_g_reads_back.C07_fmt_g_reads_back.
+
+Module T_sig_digits_near. Import RtFloat. Local Open Scope bool_scope. Local Open Scope Z_scope.
+Import GFmt NumDecode NumSyntax GFmtSpec ILog. Local Open Scope Z_scope.
+Theorem C07_sig_digits_near :
+  forall P n d,
+  0 < P -> 0 < d -> 0 < n -> -1200 <= Z.log2 n - Z.log2 d <= 1200 ->
+  let '(D, X) := sig_digits P n d in let s := X - P + 1 in
+  2 * Z.abs (n * valden s - valnum D s * d) <= d * valnum 1 s.
+Proof. exact (@RtFloat.sig_digits_near). Qed.
+End T_sig_digits_near.
+Definition C07_sig_digits_near := @T_sig_digits_near.C07_sig_digits_near.
+
+Module T_rt_double. Import RtFloat. Local Open Scope bool_scope. Local Open Scope Z_scope.
+Import GFmt NumDecode NumSyntax GFmtSpec ILog. Local Open Scope Z_scope.
+Theorem C07_rt_double :
+  forall bits rest,
+  0 <= bits < 2 ^ 64 -> (bits mod 2 ^ 63) / 2 ^ 52 < 2047 -> delim rest ->
+  let '(neg, n, d) := dec64 bits in 0 < n ->
+  let '(D, X) := sig_digits 15 n d in
+  10 ^ 14 <= D < 10 ^ 15 /\
+  2 * Z.abs (n * valden (X - 14) - valnum D (X - 14) * d) <= d * valnum 1 (X - 14) /\
+  exists N' D', strtod_exact (bzl (fmt_double 15 bits) ++ rest) = Some (neg, N', D') /\ 0 < D' /\ N' * valden (X - 14) = valnum D (X - 14) * D'.
+Proof. exact (@RtFloat.rt_double). Qed.
+End T_rt_double.
+Definition C07_rt_double := @T_rt_double.C07_rt_double.
+
+Module T_rt_float. Import RtFloat. Local Open Scope bool_scope. Local Open Scope Z_scope.
+Import GFmt NumDecode NumSyntax GFmtSpec ILog. Local Open Scope Z_scope.
+Theorem C07_rt_float :
+  forall bits rest,
+  0 <= bits < 2 ^ 32 -> (bits mod 2 ^ 31) / 2 ^ 23 < 255 -> delim rest ->
+  let '(neg, n, d) := dec32 bits in 0 < n ->
+  let '(D, X) := sig_digits 6 n d in
+  10 ^ 5 <= D < 10 ^ 6 /\
+  2 * Z.abs (n * valden (X - 5) - valnum D (X - 5) * d) <= d * valnum 1 (X - 5) /\
+  exists N' D', strtod_exact (bzl (fmt_float 6 bits) ++ rest) = Some (neg, N', D') /\ 0 < D' /\ N' * valden (X - 5) = valnum D (X - 5) * D'.
+Proof. exact (@RtFloat.rt_float). Qed.
+End T_rt_float.
+Definition C07_rt_float := @T_rt_float.C07_rt_float.
 
